@@ -14,6 +14,22 @@ from . import terminology
 from .tools.doc_inherit import allow_inherit_docstring
 
 
+def _check_not_own_ancestor(parent, section):
+    """
+    Raises a ValueError if *section* is *parent* or one of the ancestors of *parent*;
+    adding it as a child of *parent* would make a Section its own ancestor.
+
+    :param parent: odML Document or Section that is about to receive a new child.
+    :param section: the odML Section that is about to be added.
+    """
+    curr = parent
+    while curr is not None:
+        if curr is section:
+            raise ValueError("A Section cannot be added to itself "
+                             "or to one of its own subsections.")
+        curr = curr.parent
+
+
 class BaseObject(object):
     """
     Base class for all odML objects.
@@ -132,6 +148,9 @@ class SmartList(list):
         if not isinstance(value, self._content_type):
             raise ValueError("List only supports elements of type '%s'" %
                              self._content_type)
+
+        if hasattr(self[key], "_parent") and hasattr(value, "sections"):
+            _check_not_own_ancestor(self[key]._parent, value)
 
         # If required remove new object from its old parents child-list
         if hasattr(value, "_parent") and (value._parent and value in value._parent):
@@ -260,6 +279,7 @@ class Sectionable(BaseObject):
             if section.name in self._sections:
                 raise ValueError("Section with name '%s' already exists." % section.name)
 
+            _check_not_own_ancestor(self, section)
             self._sections.insert(position, section)
             section._parent = self
         else:
@@ -273,6 +293,7 @@ class Sectionable(BaseObject):
         """
         from odml.section import BaseSection
         if isinstance(section, BaseSection):
+            _check_not_own_ancestor(self, section)
             self._sections.append(section)
             section._parent = self
         elif isinstance(section, Iterable) and not isinstance(section, str):
@@ -297,6 +318,8 @@ class Sectionable(BaseObject):
 
             if isinstance(sec, BaseSection) and sec.name in self._sections:
                 raise KeyError("Section with name '%s' already exists." % sec.name)
+
+            _check_not_own_ancestor(self, sec)
 
         for sec in sec_list:
             self.append(sec)
